@@ -129,7 +129,10 @@ def one_case(ctx: Ctx, stream: str, i: int, depth: int) -> None:
         pos[t] += 1
 
     S = jax.ShapeDtypeStruct((2,), jnp.float32)
-    base_op = IdentityOperator(S)
+    # the operand of the lazy inverses is a COMPOSITE (reduce() rebuilds composites): reducing a lazy inverse, alone or
+    # inside an expression, whenever and wherever, must not change the configuration it captured at creation
+    from furax._base.core import AdditionOperator, HomothetyOperator
+    base_op = AdditionOperator([IdentityOperator(S), HomothetyOperator(2.0, S)])
     turn = [threading.Semaphore(0) for _ in range(nthreads)]
     done = threading.Semaphore(0)
     observed: list = [None] * len(schedule)
@@ -198,6 +201,13 @@ def one_case(ctx: Ctx, stream: str, i: int, depth: int) -> None:
                     done.release()
                 elif ev[0] == 'apply':
                     inv = inverses.get(ev[1])
+                    if inv is not None and (slot % 3) != 0:
+                        # look at it through a reduction performed NOW, under whatever configuration is active
+                        how = slot % 3
+                        red = inv.reduce() if how == 1 else (2.0 * inv).reduce()
+                        cands = [red] + list(getattr(red, 'operands', []))
+                        found = [o for o in cands if isinstance(o, InverseOperator)]
+                        inv = found[0] if found else inv
                     observed[slot] = 'unknown' if inv is None else ['cfg'] + tokens_of(inv.config, tables)
                     if inv is not None:
                         seen_cfgs.append(inv.config)
